@@ -7,9 +7,9 @@ From SpyneV Require Export C03.Model.
 
 (* ------------------------------------------------------------------ structured keys *)
 (** one segment of a flat key: a member name and, possibly, a bracketed index *)
-Definition seg := (text * option Z)%type.
-Definition skey := list seg.
-Definition item := (skey * list text)%type.
+Notation seg := (text * option Z)%type (only parsing).
+Notation skey := (list (text * option Z)) (only parsing).
+Notation item := (list (text * option Z) * list text)%type (only parsing).
 
 Definition path_of (k : skey) : list text := map fst k.
 Fixpoint idxs_of (k : skey) : list Z :=
